@@ -266,3 +266,118 @@ src: mokapot/streaming.py:318-323 -/
 def kmDeliverRead (r : List α × Bool) : List α × Bool := if r.2 then ([], true) else (r.1, false)
 
 end Mk.Merge
+
+namespace Mk.Merge
+variable {α : Type}
+
+/-! ## Second pass: which row iterator `merge_sort` uses (path suffixes, mixed lists) -/
+
+/-- `paths[0].suffix == ".parquet"` in `merge_sort`; `suffix in PARQUET_SUFFIXES` in
+`TabularDataReader.from_path`.  A file whose name ends in `.parquet` holds Parquet data, every
+other file is text (whatever its suffix: `.csv`, `.pin`, `.tab`, `.psms`, … or — read as text
+after a warning — `.tsv`, `.txt`, no suffix at all).
+src: mokapot/utils.py:151, mokapot/tabular_data.py:34, 91-103 -/
+def kmIsParquet (suffix : String) : Bool := suffix == ".parquet"
+
+/-- can the row iterator that `merge_sort` chose from the *first* path read a file with this
+suffix?  `parquet_row_iterator` opens every path with `pq.ParquetFile` (a text file →
+`ArrowInvalid`); `csv_row_iterator` goes through `TabularDataReader.from_path`, which looks at
+the file's own suffix (Parquet reader for `.parquet`, text reader otherwise), so it reads both.
+src: mokapot/utils.py:130-148, 151-154 -/
+def kmReadable (firstIsParquet : Bool) (suffix : String) : Bool :=
+  !firstIsParquet || kmIsParquet suffix
+
+/-- `merge_sort(paths, score_column)` on files given as `(suffix, rows)`: the row iterator is
+chosen from the suffix of the first path only and applied to every path.  `none`: the code
+raises before the first row (no path, a file without rows, or a text file in a list whose
+first path is Parquet).
+src: mokapot/utils.py:150-166 -/
+def kmergePaths (le : α → α → Bool) (c : Nat) (files : List (String × List α)) :
+    Option (List α) :=
+  if files.all (fun f => kmReadable (kmIsParquet ((files.map (·.1)).headD "")) f.1)
+  then kmergeFiles le c (files.map (·.2)) else none
+
+/-! ## Parquet files written in several row groups -/
+
+/-- the row iterator over a Parquet file that was written in row groups of `g` rows
+(mokapot's own writers append chunk by chunk: one row group per chunk) and is read in batches
+of at most `c` rows that do not span a row-group border (whether pyarrow lets a batch span a
+border depends on its version; `kmRowIter` is the spanning case).
+src: mokapot/utils.py:141-147, mokapot/tabular_data.py:315-333 -/
+def kmRowIterGroups (g c : Nat) (xs : List α) : List α :=
+  ((kmChunks g xs).map (kmRowIter c)).flatten
+
+/-! ## Scores that are ±∞ -/
+
+/-- a float score that is not NaN: finite (an integer here) or ±∞ -/
+inductive XScore where
+  | negInf
+  | fin (v : Int)
+  | posInf
+deriving DecidableEq, Repr
+
+/-- IEEE `<=` on non-NaN floats -/
+def xle : XScore → XScore → Bool
+  | .negInf, _ => true
+  | _, .posInf => true
+  | .fin a, .fin b => decide (a ≤ b)
+  | _, _ => false
+
+/-- rows `(score, id)` whose score may be ±∞, ordered by score -/
+def xleRow (a b : XScore × Nat) : Bool := xle a.1 b.1
+
+end Mk.Merge
+
+namespace Mk.Merge
+variable {α : Type}
+
+/-! ## A table merger whose inputs are table mergers
+
+`MergedTabularDataReader` is itself a `TabularDataReader`, so mergers can be stacked: the outer
+merger asks every inner one for `get_chunked_data_iterator(chunk_size = outer reader_chunk_size)`
+and walks through the rows of the frames it receives.  When an inner merger meets an unsorted
+input, its `ValueError` surfaces in the outer merger's `next(row_iterators[i])` — which only
+expects `StopIteration` — after the rows of the complete frames have been consumed, and
+propagates.  The outer merger therefore sees an inner one as "these rows, then an exception
+instead of the end"; that is modelled by a row `none` placed behind them which is *beyond the
+best* in the declared direction, so that reaching it is exactly an order violation
+(`violates`): the current row is yielded, then the error is raised. -/
+
+/-- the score order extended by the marker `none` = "the inner merger raises here": above every
+row in descending mode, below every row in ascending mode -/
+def leRaise (le : α → α → Bool) (desc : Bool) : Option α → Option α → Bool
+  | some a, some b => le a b
+  | none, none => true
+  | none, some _ => !desc
+  | some _, none => desc
+
+/-- what the outer merger sees of an inner merger that delivered `(frames, raised?)` -/
+def nestedInput (r : List (List α) × Bool) : List (Option α) :=
+  r.1.flatten.map some ++ (if r.2 then [none] else [])
+
+/-- does the inner merger raise before its first frame is complete? -/
+def startsRaised : List (Option α) → Bool
+  | none :: _ => true
+  | _ => false
+
+/-- the results `(frames, raised?)` of the inner mergers (reader chunk size `cin`) as delivered
+by `get_chunked_data_iterator(chunk_size = cout)`; `none` for one that raises at once (no reader,
+or a reader without rows).
+src: mokapot/streaming.py:256-262, 300-316 -/
+def nestedInner (le : α → α → Bool) (desc : Bool) (cin cout : Nat) (groups : List (List (List α))) :
+    List (Option (List (List α) × Bool)) :=
+  groups.map (fun g => (kmergeCheckedFiles le desc cin g).map (kmDeliverFrames cout))
+
+/-- `MergedTabularDataReader([MergedTabularDataReader(g, col, desc, cin) for g in groups], col, desc,
+cout).get_row_iterator()`: rows yielded, and whether `ValueError` was then raised.
+src: mokapot/streaming.py:211-298 (outer), 300-316 (inner, as a reader of the outer one) -/
+def kmergeNested (le : α → α → Bool) (desc : Bool) (cin cout : Nat)
+    (groups : List (List (List α))) : Option (List α × Bool) :=
+  if (nestedInner le desc cin cout groups).any Option.isNone then none
+  else if (((nestedInner le desc cin cout groups).filterMap id).map nestedInput).any startsRaised
+  then some ([], true)
+  else (kmergeChecked (leRaise le desc) desc
+      (((nestedInner le desc cin cout groups).filterMap id).map nestedInput)).map
+    (fun r => (r.1.filterMap id, r.2))
+
+end Mk.Merge
